@@ -1061,6 +1061,14 @@ def work_items(tier, seed):
                 items.append(dict(kind="asym", grid="%d/%s" % (nd, dname), dir=d, freq=f, fgrid=gname, menu=M, tier=tier, seed=seed, order=(4, nd)))
                 items.append(dict(kind="twod", grid="%s x %d/%s" % (gname, nd, dname), dir=d, freq=f, menu=M, tier=tier, seed=seed,
                                   scalar=(tier == "quick" or gi == pair % ng), gi=gi, order=(5, nd)))
+    # ---- narrow beams (swell): spreads of 3..8.5 degrees on 2 and 1 degree grids, which resolve them
+    Mn = dict(M, dspr=[5.0, 3.0, 7.5, 8.5])
+    for nd in (180, 360):
+        dname, d = dir_grids(nd, "quick")[nd // 360]
+        items.append(dict(kind="spread", grid="%d/%s/narrow" % (nd, dname), dir=d, menu=Mn, fgrid=grids[nd % ng], seed=seed, order=(3, nd)))
+    gname, f = grids[seed % ng]
+    items.append(dict(kind="twod", grid="%s x 180/asc0/narrow" % gname, dir=dir_grids(180, "quick")[0][1], freq=f, menu=Mn, tier=tier, seed=seed,
+                      scalar=True, gi=seed % ng, order=(5, 180)))
     items.sort(key=lambda it: it["order"])
     # written-out samples: one per kind of work (first = simplest item of the kind; one per shape for the scalar 1D items)
     seen = set()
@@ -1379,7 +1387,7 @@ def run(rep, tier, seed, parts=None):
         "passed as DataArrays over one or two extra dimensions (every element of a batch is one case), plus every subset of the "
         "parameters as DataArrays with the rest scalar; with scalar parameters (one constructor call per case) the full product of "
         "(hs | not given, fp, gamma, depth) x (sigma_a, sigma_b) pairs [tma quick: 3 of the 9 pairs per combination, cycling] with alpha "
-        "cycling. Every spreading function on full-circle grids nd in {12,24,36,72} (start 0, half-bin offset, descending, rotated) x dm x "
+        "cycling. Every spreading function on full-circle grids nd in {12,24,36,72} (start 0, half-bin offset, descending, rotated) and, for narrow beams (dspr 3, 5, 7.5, 8.5 deg), nd in {180,360} x dm x "
         "dspr x under_90 as scalars / DataArrays / frequency dependent arrays; asymmetric over the product of (dpm, dm-dpm, dspr, "
         "dpspr, fm-fp, fp); construct_partition(shape, spreading) for six shape variants x the whole direction product (scalar, "
         "DataArray, shape and direction parameters zipped over one dim and crossed over two); numpy twins over the same products. "
